@@ -26,9 +26,30 @@ THEOREMS = ["C19_never_raises", "C19_stack_empty_after_success", "C19_stack_rest
 MOD_O, MOD_S, MOD_C = "verif_c19_orig", "verif_c19_slot", "verif_c19_corr"
 
 
+IMPORT_ERROR = None
+
+
 def _classes():
-    from typelib.py import classes
-    return classes
+    """typelib.py.classes.  typelib decorates its own Codec/TypeNode/BoundRoutine with slotted() at import time, so a
+    broken slotted() makes `import typelib` fail; the check must still be able to show the failing input: fall back to
+    importing classes.py (and constants.py) alone through a stub package, and remember the import error."""
+    global IMPORT_ERROR
+    try:
+        from typelib.py import classes
+        return classes
+    except Exception as e:          # noqa: BLE001
+        import importlib
+        import traceback
+        if IMPORT_ERROR is None:
+            IMPORT_ERROR = "".join(traceback.format_exception_only(type(e), e)).strip()[:500]
+        for m in [k for k in sys.modules if k == "typelib" or k.startswith("typelib.")]:
+            del sys.modules[m]
+        root = os.path.join(lib.REPO, "src", "typelib")
+        for name, path in (("typelib", root), ("typelib.py", os.path.join(root, "py"))):
+            pkg = types.ModuleType(name)
+            pkg.__path__ = [path]
+            sys.modules[name] = pkg
+        return importlib.import_module("typelib.py.classes")
 
 
 # ----------------------------------------------------------------------------------
@@ -490,8 +511,12 @@ def structural(spec, plain, new):
     except Exception:
         pass
     if inst is not None:
-        if hasattr(inst, "__dict__") != (want_dict or base_dict):
-            fails.append(f"hasattr(instance, '__dict__') = {hasattr(inst, '__dict__')} but requested={want_dict}, inherited={base_dict}")
+        try:
+            hd = hasattr(inst, "__dict__")
+        except Exception as e:          # a stale descriptor of the old class raises TypeError, not AttributeError
+            hd = f"{type(e).__name__}: {e}"
+        if hd != (want_dict or base_dict):
+            fails.append(f"hasattr(instance, '__dict__') = {hd} but requested={want_dict}, inherited={base_dict}")
         try:
             weakref.ref(inst)
             wk = True
@@ -541,20 +566,28 @@ def check_program(prog):
             if dataclasses.is_dataclass(plain) and type(plain) is type and "__slots__" not in vars(plain):
                 msg = str(e)
                 cat = ("slot disallowed" if "slot disallowed" in msg else
-                       "re-entrancy guard (_stack)" if "custom metaclass" in msg else msg[:40])
+                       "re-entrancy guard (_stack)" if "custom metaclass" in msg else
+                       "slot conflicts with class variable" if "conflicts with class variable" in msg else msg[:40])
                 fails.append(dict(base, symptom="decoration raised for a plain-metaclass dataclass",
                                   got=f"{type(e).__name__}: {e}"[:300], keys=[f"decorate: {type(e).__name__}: {cat}"]))
             continue
         new = ms._c[i]
         if not dataclasses.is_dataclass(plain):
             continue
-        st = structural(s, plain, new)
+        try:
+            st = structural(s, plain, new)
+        except Exception as e:          # noqa: BLE001
+            st = [f"crash while inspecting the slotted class: {type(e).__name__}: {e}"]
         if st:
             fails.append(dict(base, symptom="structure", got="; ".join(st)[:600], keys=sorted(x.split(" ")[0] for x in st)))
         if i in mo._err or i not in mo._c:
             continue
         hooks_chain = [prog[j]["hooks"] for j in [i] + _ancestors(prog, i)]
-        bo, bs = behave(mo, mo._c[i]), behave(ms, new)
+        bo = behave(mo, mo._c[i])
+        try:
+            bs = behave(ms, new)
+        except Exception as e:          # noqa: BLE001
+            bs = {"crash": f"{type(e).__name__}: {e}"}
         diff = sorted(k for k in set(bo) | set(bs) if bo.get(k) != bs.get(k))
         if any(h in ("get", "set") for h in hooks_chain):
             # a lone user __getstate__ or __setstate__ relies on the instance __dict__: outside the quantifier
@@ -633,6 +666,11 @@ def search(run: lib.Run, broken):
     for _ in range(n):
         progs.append(G.gen_program(rng, 4, malformed=0.05))
     fails, nclasses, nprog = [], 0, 0
+    _classes()
+    if IMPORT_ERROR is not None:
+        fails.append({"symptom": "import typelib fails: slotted() raises on the library's own classes", "keys": ["import"],
+                      "got": IMPORT_ERROR, "feature_super": False, "program": [], "index": -1,
+                      "key": "import typelib fails"})
     for p in progs:
         p = [dict(s, reslot=False) for s in p]
         nprog += 1
@@ -651,6 +689,9 @@ def search(run: lib.Run, broken):
     out = []
     for _, f in sorted(best.values(), key=lambda v: v[0])[:8]:
         sym, keys = f["symptom"], f["keys"]
+        if not f["program"]:
+            out.append(f)
+            continue
 
         def pred(q, sym=sym, keys=keys):
             return any(x["symptom"] == sym and x["keys"] == keys for x in check_program(q))
@@ -706,6 +747,9 @@ def own_findings(run):
 # ----------------------------------------------------------------------------------
 
 def replay(payload):
+    if not payload.get("program"):
+        _classes()
+        return {"fails": IMPORT_ERROR is not None, "failures": [{"symptom": "import typelib fails", "got": IMPORT_ERROR}]}
     fs = check_program([dict(s) for s in payload["program"]])
     want = payload.get("symptom")
     if want:
